@@ -246,6 +246,31 @@ pub struct ExIoError(std::io::Error);
 #[verifier::external_body]
 pub struct ExUri(http::Uri);
 
+/// A-string-ext: a `String` is determined by its contents.
+pub axiom fn axiom_string_ext(a: String, b: String)
+    ensures a@ == b@ ==> a == b;
+
+/// Text of anything passed as `AsRef<str>` (uninterpreted; pinned for `&str` and `&String` below).
+pub uninterp spec fn as_ref_str<S: ?Sized>(s: &S) -> Seq<char>;
+
+pub broadcast axiom fn axiom_as_ref_str_str(s: &&str)
+    ensures #[trigger] as_ref_str::<&str>(s) == (**s)@;
+
+pub broadcast axiom fn axiom_as_ref_str_string(s: &&String)
+    ensures #[trigger] as_ref_str::<&String>(s) == (**s)@;
+
+/// Text of a `http::Uri` (its `Display` / `to_string`), uninterpreted.
+pub uninterp spec fn uri_text(u: http::Uri) -> Seq<char>;
+
+pub broadcast axiom fn axiom_to_string_uri(u: &http::Uri, r: String)
+    ensures #[trigger] vstd::string::to_string_from_display_ensures::<http::Uri>(u, r) ==> r@ == uri_text(*u);
+
+pub broadcast group group_ipp_text {
+    axiom_as_ref_str_str,
+    axiom_as_ref_str_string,
+    axiom_to_string_uri,
+}
+
 // ------------------------------------------------------------------ num_traits::FromPrimitive
 
 /// Result of the derive-generated `FromPrimitive::from_*` for a type (uninterpreted; pinned per
